@@ -15,6 +15,12 @@ import (
 	"github.com/tdakkota/docker-logql/internal/zzverif/vk"
 )
 
+// c14BadStamps: first tokens that are not timestamps -- words, other notations, and Docker's own fixed-width
+// shape with one digit position damaged (a byte below '0': blank, NUL, + , - . / ; a letter; a field out of range)
+var c14BadStamps = []string{"yesterday", "1700000000", "2024-13-01T00:00:00.000000000Z", "2024-01-0/T10:00:00.000000000Z", "20 4-01-01T10:00:00.000000000Z",
+	"2024-01-01T10:00:00.00000000\x00Z", "2024-01-01T1+:00:00.000000000Z", "2024-01-01T10:00:00.-00000000Z", ",024-01-01T10:00:00.000000000Z", "2024-01-01T10:0.:00.000000000Z",
+	"2024-0--01T10:00:00.000000000Z", "2024-01-01T10:00:0\x1f.000000000Z", "2024-01-01T10:00:00.00000000aZ", "2023-02-30T10:00:00.123456789Z", "2024-01-01T10:00:00.000/00000Z", "2024-01-01T/0:00:00.000000000Z"}
+
 func init() {
 	register("C14", "fault_enumeration", 10*time.Minute, 60*time.Minute, runC14)
 }
@@ -162,7 +168,7 @@ func applyFault(fd *FakeDocker, inv []CSpec, f c14Fault) func() bool {
 		case "daemon-error":
 			frames[f.At] = Frame{Type: 3, Raw: "daemon says no"}
 		case "bad-timestamp":
-			frames[f.At].Raw = "yesterday " + frames[f.At].Body
+			frames[f.At].Raw = c14BadStamps[(f.At*7+f.Container*3)%len(c14BadStamps)] + " " + frames[f.At].Body
 		case "no-space":
 			frames[f.At].Raw = "2023-11-14T22:13:20Z"
 		}
